@@ -596,6 +596,20 @@ def check_c07(prop, tier):
                     cfgs.append(D.Config("HRevolve", (ram, disk) + cv, n))
                 for c in ("Revolve", "DiskRevolve", "PeriodicDiskRevolve"):
                     cfgs.append(D.Config(c, (ram,) + cv, n))
+    # the same cost values in other numeric types (exact rationals,
+    # numpy.float64 scalars, 0-d numpy arrays -- mutable, so an in-place
+    # update of a cost inside the planner shows): same optimum
+    tcv = [costs[0], costs[3], costs[5]]
+    res.bounds["typed_cost_vectors"] = [list(c) for c in tcv]
+    for n in range(1, min(B["T"], 14) + 1):
+        for ram in range(1, B["RAM"] + 1):
+            for cv in tcv:
+                for fl in ("cF", "cN", "cA"):
+                    for disk in range(0, min(B["DISK"], 2) + 1):
+                        cfgs.append(D.Config("HRevolve", (ram, disk) + cv, n,
+                                             1, fl))
+                    for c in ("Revolve", "DiskRevolve"):
+                        cfgs.append(D.Config(c, (ram,) + cv, n, 1, fl))
 
     parts = stream_costs(cfgs)
     cost = {}
